@@ -93,7 +93,7 @@ def main(argv):
     anchor_files = _anchor_files(prop)
     for s in specs:
         s["_anchor_files"] = anchor_files
-    shard_timeout = getattr(mod, "SHARD_TIMEOUT", {"quick": 600, "thorough": 3000})[tier]
+    shard_timeout = getattr(mod, "SHARD_TIMEOUT", {"quick": 420, "thorough": 3000})[tier]
     for s in specs:
         s["_watchdog"] = shard_timeout - 20
 
